@@ -272,6 +272,8 @@ func (m *Machine) exec(t *rapid.T, op string) bool {
 		return m.opLockedMint(t)
 	case "locked_spend":
 		return m.opLockedSpend(t)
+	case "old_keyset_fee":
+		return m.opOldKeysetFee(t)
 	}
 	return false
 }
@@ -737,6 +739,16 @@ func (m *Machine) opSwap(t *rapid.T, adversarial bool) bool {
 	return true
 }
 
+// respellInvoice: bech32 is valid in all lower and in all upper case (QR codes carry the latter); one time in three
+// the client presents the mint's own invoice in upper case - the same invoice.
+func (m *Machine) respellInvoice(t *rapid.T, request string) string {
+	if rapid.IntRange(0, 2).Draw(t, "invoice_upper_case") == 0 {
+		m.Count["own_invoice_in_upper_case"]++
+		return strings.ToUpper(request)
+	}
+	return request
+}
+
 func (m *Machine) opMeltQuote(t *rapid.T) bool {
 	w := m.W
 	kind := rapid.SampledFrom([]string{"external", "external", "external_msat", "internal", "internal", "mpp", "internal_mpp", "internal_mpp", "same_hash_other_invoice"}).Draw(t, "mq_kind")
@@ -782,7 +794,7 @@ func (m *Machine) opMeltQuote(t *rapid.T) bool {
 			return false
 		}
 		part := rapid.Uint64Range(1000, q.Amount*1000-1).Draw(t, "internal_mpp_part")
-		_, err := w.RequestMeltQuote(q.Request, part)
+		_, err := w.RequestMeltQuote(m.respellInvoice(t, q.Request), part)
 		m.logf("mpp melt quote for own mint quote %d (payments %d, issuances %d), part %d msat: err=%v", q.Idx, q.Payments(), q.Issuances, part, err)
 		m.Count["adversarial_reached"]++
 		return true
@@ -798,7 +810,7 @@ func (m *Machine) opMeltQuote(t *rapid.T) bool {
 		if q == nil {
 			return false
 		}
-		mq, err := w.RequestMeltQuote(q.Request, 0)
+		mq, err := w.RequestMeltQuote(m.respellInvoice(t, q.Request), 0)
 		m.logf("melt quote for own mint quote %d (internal): err=%v", q.Idx, err)
 		if err != nil {
 			m.honestFail("melt_quote", err)
@@ -1048,6 +1060,47 @@ func short(s string) string {
 		return s[:14] + ".."
 	}
 	return s
+}
+
+// opOldKeysetFee: a swap whose inputs all belong to retired keysets that charge a fee, paying that fee exactly (must
+// be accepted) or one unit short of it (must be refused) - whatever the active keyset charges.
+func (m *Machine) opOldKeysetFee(t *rapid.T) bool {
+	w := m.W
+	var old []*world.MProof
+	for _, mp := range m.spendable() {
+		if mp.P.Id != w.ActiveID && w.Keysets[mp.P.Id] != nil && w.Keysets[mp.P.Id].Fee > 0 {
+			old = append(old, mp)
+		}
+	}
+	if len(old) == 0 {
+		return false
+	}
+	ins := pickProofs(t, old, 4, "okf_in")
+	inputs := proofsOf(ins)
+	total, fee := sumOf(ins), w.FeeFor(inputs)
+	if fee == 0 || total <= fee {
+		return false
+	}
+	m.Count["swap_of_retired_fee_keyset_inputs"]++
+	if w.Keysets[w.ActiveID].Fee == 0 {
+		m.Count["swap_of_retired_fee_keyset_inputs_active_free"]++
+	}
+	if rapid.Bool().Draw(t, "okf_short") {
+		outs := m.honestOutputs(total - fee + 1)
+		_, err := w.Swap(inputs, outs)
+		m.logf("swap of %d inputs of retired keysets (%d sat, fee due %d) one unit short of the fee: err=%v", len(inputs), total, fee, err)
+		m.Count["adversarial_reached"]++
+		return true
+	}
+	outs := m.honestOutputs(total - fee)
+	_, err := w.Swap(inputs, outs)
+	m.logf("swap of %d inputs of retired keysets (%d sat, fee %d): err=%v", len(inputs), total, fee, err)
+	if err != nil {
+		m.honestFail("swap", err)
+	} else {
+		m.Count["swap_with_fee"]++
+	}
+	return true
 }
 
 func (m *Machine) opRotate(t *rapid.T) bool {
